@@ -963,6 +963,13 @@ pub(crate) async fn prepare_request(
 
     let (operation_name, mut operation) = operation.map_err(|err| vec![err])?;
 
+    if request.disallow_mutation && operation.node.ty == OperationType::Mutation {
+        return Err(vec![ServerError::new(
+            "Mutations are not allowed over HTTP GET.",
+            Some(operation.pos),
+        )]);
+    }
+
     // remove skipped fields
     let variable_definitions = std::mem::take(&mut operation.node.variable_definitions);
     for fragment in document.fragments.values_mut() {
